@@ -23,7 +23,7 @@ sys.path.insert(0, __import__("os").environ.get("VF_REPO", "/repo") + "/src")
 
 TARGET = {"ToBytes": "bytes", "FromBytes": "obj", "ToDict": "dict", "FromDict": "obj", "ToJson": "json", "FromJson": "obj",
           "DictToJson": "json", "JsonToDict": "dict", "MsgToJson": "mjson", "MsgFromJson": "obj", "Copy": "obj", "MsgCopy": "obj",
-          "MutateCopy": "obj"}
+          "MutateCopy": "obj", "EditDict": "obj"}
 CLOSE = {"bytes": ("FromBytes", "-"), "dict": ("FromDict", "-"), "json": ("FromJson", "-"), "mjson": ("MsgFromJson", "-")}
 MSG_ACTIONS = {"MsgToJson", "MsgFromJson", "MsgCopy"}
 
@@ -106,7 +106,20 @@ def _assign_string(parent, name: str, tag: str, n: int, variant: int):
     setattr(parent, name, vals[variant % len(vals)])
 
 
-def build_into(obj, kind: str, tag: str, variant: int, salt: int = 0) -> bool:
+SPARSE = 100        # variant numbers >= SPARSE: struct arrays keep their elements after the first unset (all bytes zero)
+
+
+def has_struct_array(cls) -> bool:
+    for name, desc in valdrv.all_fields(cls):
+        cont, ek, n, sc = valdrv.kind_of(desc)
+        if cont == "StructArray" and n >= 2:
+            return True
+        if cont in ("Struct", "StructArray") and sc is not None and has_struct_array(sc):
+            return True
+    return False
+
+
+def build_into(obj, kind: str, tag: str, variant: int, salt: int = 0, sparse: bool = False) -> bool:
     """fill obj through the validated API; True if some field of `kind` received a value of class `tag`"""
     found = False
     for j, (name, desc) in enumerate(valdrv.all_fields(type(obj))):
@@ -114,10 +127,12 @@ def build_into(obj, kind: str, tag: str, variant: int, salt: int = 0) -> bool:
         if cont == "?":
             continue
         if cont == "Struct":
-            found |= build_into(getattr(obj, name), kind, tag, variant + j, salt + j + 1)
+            found |= build_into(getattr(obj, name), kind, tag, variant + j, salt + j + 1, sparse)
         elif cont == "StructArray":
             for e, x in enumerate(getattr(obj, name)):
-                found |= build_into(x, kind, tag, variant + j + e, salt + j + e + 2)
+                if sparse and e >= 1:
+                    break
+                found |= build_into(x, kind, tag, variant + j + e, salt + j + e + 2, sparse)
         elif cont == "String":
             if kind == "String":
                 _assign_string(obj, name, tag, n, variant + j)
@@ -146,7 +161,9 @@ def build_into(obj, kind: str, tag: str, variant: int, salt: int = 0) -> bool:
 
 def build_value(cls, kind: str, tag: str, variant: int):
     obj = cls()
-    if not build_into(obj, kind, tag, variant, salt=variant):
+    sparse = variant >= SPARSE
+    variant %= SPARSE
+    if not build_into(obj, kind, tag, variant, salt=variant, sparse=sparse):
         return None
     return obj
 
@@ -262,6 +279,24 @@ def _scribble(obj):
         ctypes.memmove(ctypes.addressof(obj), pat, n)
 
 
+def _edit_in_place(d):
+    """edit every leaf of a to_dict() result in place (containers keep their identity, as a caller's edit would)"""
+    items = d.items() if isinstance(d, dict) else enumerate(d)
+    for k, v in list(items):
+        if isinstance(v, (dict, list)):
+            _edit_in_place(v)
+        elif isinstance(v, bool):
+            d[k] = not v
+        elif isinstance(v, int):
+            d[k] = 1 if v == 0 else 0
+        elif isinstance(v, float):
+            d[k] = 1.5 if v != 1.5 else 2.5
+        elif isinstance(v, str):
+            d[k] = v + "x"
+        else:
+            d[k] = 1
+
+
 class Walker:
     """executes a trie of conversion paths on one object of one class"""
 
@@ -293,6 +328,21 @@ class Walker:
             return "dict", x.to_dict(), src
         if a == "FromDict":
             return "obj", cls.from_dict(_copy.deepcopy(x)), src
+        if a == "EditDict":
+            # the caller edits the result it holds; the untouched message is then converted again
+            def text(d):
+                return json.dumps(d, cls=RTMAJSONEncoder, sort_keys=True)
+            mine = self.obj0.to_dict()          # (x itself is shared with the sibling paths of the trie: edit an own result)
+            before = text(mine)
+            other = self.obj0.to_dict()         # a second result, handed out before the edit
+            _edit_in_place(mine)
+            if bytes(self.obj0) != self.b0:
+                raise Failure("shares", "editing a to_dict() result changed the message")
+            if text(other) != before:
+                raise Failure("shares", "editing a to_dict() result changed another result handed out earlier")
+            if text(self.obj0.to_dict()) != before:
+                raise Failure("shares", "editing a to_dict() result changed a later to_dict() of the untouched message")
+            return "obj", cls.from_buffer_copy(self.b0), src     # (not obj0 itself: a retained copy source may be obj0)
         if a == "ToJson":
             return "json", x.to_json(minify=(p == "minify")), src
         if a == "FromJson":
